@@ -10,7 +10,7 @@ from tools.layers import registry as R
 RULE = ('registry layer: histories of {define subclass, add_constructor, add_multi_constructor, add_representer, add_multi_representer, '
         'add_implicit_resolver, add_path_resolver, yaml.add_* helpers with/without explicit class, YAMLObject subclass} over the shipped '
         'classes: the empty history (all shipped tables incl. values), all valid sequences over a 26-op alphabet up to length L '
-        '(quick L=2, thorough L=3), plus seeded random histories of length 1..12; each runs in a forked child of an interpreter that '
+        '(quick L=2, thorough L=3), plus seeded random histories of length 1..12 interleaved with `use` steps (loads and dumps with every loader/dumper class of the world, which the model treats as the identity: only registrations may change a table); each runs in a forked child of an interpreter that '
         'imported yaml once; observed = MRO + six effective tables (keys in order, value names) of every class; the same history is '
         'evaluated in Coq from the regenerated world. non-trivial = at least one registration; distinct = by canonical history')
 
@@ -23,6 +23,7 @@ def run(ctx):
     if not ctx.quick() and len(ex) > 6000:
         ex = ex[:700] + ctx.rng.sample(ex[700:], 5300)
     hists += ex
+    hists += [h + [['use']] for h in ex if len(h) == 1] + [[['use']]]      # every single registration followed by loads and dumps with every class
     for i in range(ctx.n(250, 2500)):
         hists.append(R.gen_history(ctx.rng, ctx.rng.choice([1, 2, 3, 4, 6, 8, 12])))
     check_histories(ctx, hists)
